@@ -8,9 +8,10 @@ Generated (definitions only):
   `Executor._run_hash_job`;
 * the inotify mask bits used by `change_loop` (values read from asyncinotify.Mask) and the set of
   bits classified as DELETED;
-* two shape flags read from the AST: `isdir_emits_self` (does the ISDIR branch of `change_loop` also
-  queue the directory itself, with a trailing separator) and `commit_attached_only` (does
-  `Watcher.run_once` restrict the EXTERNAL re-hash to attached file nodes).
+* the shape flag `isdir_emits_self` read from the AST (does the ISDIR branch of `change_loop` also queue
+  the directory itself, with a trailing separator);
+* `Watcher.run_once` translated statement by statement (`_run_once_program`): `drain_during_build`,
+  `loop_during_build`, `commit_program` (and `commit_attached_only`, the filter of its CReadOld).
 Fail closed: every function whose behaviour is hand-modelled in coq/model/Watch.v is fingerprinted
 (normalised AST without docstrings); an unknown fingerprint raises TranslatorError naming the function.
 """
@@ -19,6 +20,7 @@ from __future__ import annotations
 import ast
 import hashlib
 import importlib
+import re
 import sys
 
 from .astutil import REPO, TranslatorError, body_without_docstring, find_function, parse_module
@@ -32,7 +34,6 @@ def _fp(fn) -> str:
 # function -> {fingerprint: tag}.  Tags select the model variant; "base" is the only variant for most.
 KNOWN_SHAPES = {
     ("stepup/core/watcher.py", "Watcher", "record_change"): {},
-    ("stepup/core/watcher.py", "Watcher", "run_once"): {},
     ("stepup/core/watcher.py", "AsyncInotifyWrapper", "change_loop"): {},
     ("stepup/core/watcher.py", "AsyncInotifyWrapper", "dir_loop"): {},
     ("stepup/core/workflow.py", "Workflow", "change_is_relevant"): {},
@@ -56,8 +57,8 @@ KNOWN_SHAPES = {
 # can regenerate the table after a reviewed change of the repo)
 FINGERPRINTS = {
     "stepup/core/watcher.py:Watcher.record_change": ("c5dd50117a0aa7a3",),
-    # second shape: EXTERNAL re-hash restricted to attached nodes (proposed fix for D15)
-    "stepup/core/watcher.py:Watcher.run_once": ("54095d82d3758994", "e385562df43b7d3e"),
+    # Watcher.run_once is not fingerprinted: its body is translated statement by statement
+    # (_run_once_program below)
     # second shape: the ISDIR branch also queues the directory itself (proposed fix for C14-D10)
     "stepup/core/watcher.py:AsyncInotifyWrapper.change_loop": ("e1d6cde9fd574e23", "db0649bb364119ee"),
     "stepup/core/watcher.py:AsyncInotifyWrapper.dir_loop": ("71299503f029cf32",),
@@ -175,18 +176,132 @@ def _change_loop_facts(tree):
     return facts
 
 
-def _run_once_facts(tree):
+_READ_OLD = {
+    "old_hashes = self.workflow.get_file_hashes(self.updated | self.deleted)": False,
+    "old_hashes = self.workflow.get_file_hashes((path for path in self.updated | self.deleted "
+    "if self.workflow.find_attached(File, path) is not None))": True,
+}
+_REHASH = ("new_hashes = await gather_hashes(self.hash_queue, self.executor, self.reporter, "
+           "[(path, old_hash, HashUpdateCause.EXTERNAL) for path, old_hash in old_hashes.items()], self.njob)")
+_SETS = {"self.updated": "SetU", "self.deleted": "SetD"}
+
+
+def _during_build(call_src: str, what: str) -> bool:
+    """`await self.record_change(change, path[, during_build=<bool>])` -> the flag."""
+    m = re.fullmatch(r"await self\.record_change\(change, path(?:, during_build=(True|False))?\)", call_src)
+    if m is None:
+        raise TranslatorError(f"run_once: {what}: record_change call not recognised: {call_src}")
+    return m.group(1) == "True"
+
+
+def _translate_commit_stmt(st) -> tuple:
+    """One statement inside a transaction of the commit part of run_once -> a token of the model."""
+    src = ast.unparse(st)
+    if src in _READ_OLD:
+        return ("read_old", _READ_OLD[src])
+    if isinstance(st, ast.For):
+        # for path, new_file_hash in new_hashes.items():
+        #     if new_file_hash == old_hashes[path]:
+        #         await self.reporter('UNCHANGED', path)
+        #         self.<set>.discard(path) ...
+        if not (ast.unparse(st.target) == "(path, new_file_hash)" and ast.unparse(st.iter) == "new_hashes.items()"
+                and not st.orelse and len(st.body) == 1 and isinstance(st.body[0], ast.If)):
+            raise TranslatorError(f"run_once: loop over the new hashes not recognised: {src}")
+        cond = st.body[0]
+        if ast.unparse(cond.test) != "new_file_hash == old_hashes[path]" or cond.orelse:
+            raise TranslatorError(f"run_once: pruning condition not recognised: {ast.unparse(cond.test)}")
+        sets = []
+        for k, inner in enumerate(cond.body):
+            isrc = ast.unparse(inner)
+            if k == 0 and isrc == "await self.reporter('UNCHANGED', path)":
+                continue
+            m = re.fullmatch(r"(self\.updated|self\.deleted)\.discard\(path\)", isrc)
+            if m is None:
+                raise TranslatorError(f"run_once: statement in the pruning branch not recognised: {isrc}")
+            sets.append(_SETS[m.group(1)])
+        return ("prune", "SetU" in sets, "SetD" in sets)
+    m = re.fullmatch(r"self\.workflow\.process_nglob_changes\((self\.updated|self\.deleted), (self\.updated|self\.deleted)\)", src)
+    if m is not None:
+        return ("nglob", _SETS[m.group(1)], _SETS[m.group(2)])
+    raise TranslatorError(f"run_once: statement of the commit not recognised: {src}")
+
+
+def _run_once_program(tree):
+    """Statement-level translation of Watcher.run_once into the vocabulary of model/Watch.v.
+
+    Every statement of the body must be recognised (fail closed).  The bookkeeping of the four phase
+    events and the reporter call must be exactly the known protocol; the recording loops give the two
+    during_build flags; the statements between `busy_watching.clear()` and the clearing of the two sets
+    become `commit_program` (which sets are read, re-hashed with which cause, pruned under which
+    condition, handed to process_nglob_changes in which order, and in which order all of that happens)."""
     fn = find_function(tree, "run_once", "Watcher")
-    calls = [n for n in ast.walk(fn) if isinstance(n, ast.Call) and isinstance(n.func, ast.Attribute)
-             and n.func.attr == "get_file_hashes"]
-    if len(calls) != 1 or len(calls[0].args) != 1:
-        raise TranslatorError("run_once: get_file_hashes call not recognised")
-    arg = ast.unparse(calls[0].args[0])
-    if arg == "self.updated | self.deleted":
-        return {"commit_attached_only": False}
-    if arg == "(path for path in self.updated | self.deleted if self.workflow.find_attached(File, path) is not None)":
-        return {"commit_attached_only": True}
-    raise TranslatorError(f"run_once: argument of get_file_hashes not recognised: {arg}")
+    if not isinstance(fn, ast.AsyncFunctionDef) or ast.unparse(fn.args) != "self, change_queue: asyncio.Queue[tuple[Change, Path]]":
+        raise TranslatorError("run_once: signature not recognised")
+    body = body_without_docstring(fn)
+    srcs = [ast.unparse(st) for st in body]
+
+    def expect(i, text):
+        if i >= len(srcs) or srcs[i] != text:
+            raise TranslatorError(f"run_once: statement {i}: expected `{text}`, found `{srcs[i] if i < len(srcs) else '<end>'}`")
+    expect(0, "self.done_watching.clear()")
+    expect(1, "await self.reporter('PHASE', 'watch')")
+    # drain of the items queued while the build phase ran
+    st = body[2] if len(body) > 2 else None
+    if not (isinstance(st, ast.AsyncWith) and ast.unparse(st.items[0]) == "self.db" and len(st.items) == 1
+            and len(st.body) == 1 and isinstance(st.body[0], ast.While)
+            and ast.unparse(st.body[0].test) == "not change_queue.empty()" and not st.body[0].orelse
+            and len(st.body[0].body) == 2
+            and ast.unparse(st.body[0].body[0]) == "change, path = change_queue.get_nowait()"):
+        raise TranslatorError("run_once: drain of the change queue not recognised")
+    drain_flag = _during_build(ast.unparse(st.body[0].body[1]), "drain loop")
+    expect(3, "self.busy_watching.set()")
+    st = body[4] if len(body) > 4 else None
+    if not (isinstance(st, ast.AsyncFor) and ast.unparse(st.target) == "(change, path)"
+            and ast.unparse(st.iter) == "iter_until_stopped(change_queue.get, self.end_watching)"
+            and not st.orelse and len(st.body) == 1 and isinstance(st.body[0], ast.AsyncWith)
+            and len(st.body[0].items) == 1 and ast.unparse(st.body[0].items[0]) == "self.db"
+            and len(st.body[0].body) == 1):
+        raise TranslatorError("run_once: watch loop not recognised")
+    loop_flag = _during_build(ast.unparse(st.body[0].body[0]), "watch loop")
+    expect(5, "self.busy_watching.clear()")
+    # the commit: up to the statements that clear the sets
+    tail = ["for event in self.files_changed_events:\n    event.clear()", "self.end_watching.clear()",
+            "self.done_watching.set()"]
+    if srcs[-3:] != tail:
+        raise TranslatorError(f"run_once: end of the phase not recognised: {srcs[-3:]!r}")
+    if sorted(srcs[-5:-3]) != ["self.deleted.clear()", "self.updated.clear()"]:
+        raise TranslatorError(f"run_once: clearing of the two sets not recognised: {srcs[-5:-3]!r}")
+    prog = []
+    for st in body[6:-5]:
+        if isinstance(st, ast.AsyncWith):
+            if not (len(st.items) == 1 and ast.unparse(st.items[0]) == "self.db"):
+                raise TranslatorError(f"run_once: context manager not recognised: {ast.unparse(st.items[0])}")
+            for inner in st.body:
+                prog.append(_translate_commit_stmt(inner))
+        elif ast.unparse(st) == _REHASH:
+            prog.append(("rehash",))
+        else:
+            raise TranslatorError(f"run_once: statement of the commit not recognised: {ast.unparse(st)}")
+    kinds = [t[0] for t in prog]
+    # the data flow the model's interpreter assumes: one read of the old hashes, one re-hash after it,
+    # pruning only after the re-hash (otherwise the coroutine would raise NameError: not a shape to model)
+    if kinds.count("read_old") != 1 or kinds.count("rehash") != 1 or kinds.index("read_old") > kinds.index("rehash") \
+            or any(k == "prune" and i < kinds.index("rehash") for i, k in enumerate(kinds)):
+        raise TranslatorError(f"run_once: order of the commit statements not recognised: {kinds}")
+    coq = []
+    for t in prog:
+        if t[0] == "read_old":
+            coq.append(f"CReadOld {'true' if t[1] else 'false'}")
+        elif t[0] == "rehash":
+            coq.append("CRehash")
+        elif t[0] == "prune":
+            coq.append(f"CPrune {'true' if t[1] else 'false'} {'true' if t[2] else 'false'}")
+        else:
+            coq.append(f"CNglob {t[1]} {t[2]}")
+    coq.append("CClear")
+    ao = [t[1] for t in prog if t[0] == "read_old"][0]
+    return {"commit_attached_only": ao, "commit_program": coq, "commit_tokens": [list(t) for t in prog],
+            "drain_during_build": drain_flag, "loop_during_build": loop_flag}
 
 
 def _rescan_files_facts(tree):
@@ -263,7 +378,7 @@ def generate(check_fingerprints=True):
     facts["fingerprints"] = fps
     w_tree = parse_module("stepup/core/watcher.py")
     facts.update(_change_loop_facts(w_tree))
-    facts.update(_run_once_facts(w_tree))
+    facts.update(_run_once_program(w_tree))
     facts.update(_rescan_files_facts(parse_module("stepup/core/startup.py")))
     facts.update(_hash_job_facts(parse_module("stepup/core/executor.py")))
     if check_fingerprints:
@@ -366,6 +481,22 @@ def generate(check_fingerprints=True):
         "   confirmation_states (Executor._is_stale_confirmation); false = no such guard in the code *)",
         f"Definition stale_confirmation_guard : bool := {'true' if facts['stale_guard'] else 'false'}.",
         f"Definition confirmation_states : list fstate := [{'; '.join('FS_' + n for n in facts['confirmation_states'])}].",
+        "",
+        "(* Watcher.run_once translated statement by statement (_run_once_program): the recording loops'",
+        "   during_build flags and the commit after end_watching in the vocabulary of model/Watch.v exec_stmt:",
+        "   CReadOld ao = old_hashes of the nodes at updated|deleted (ao: attached nodes only); CRehash = gather_hashes",
+        "   with cause EXTERNAL; CPrune u d = for every unchanged re-hash discard the path from updated (u) / deleted (d);",
+        "   CNglob x y = process_nglob_changes(deleted := x, updated := y); CClear = both sets cleared *)",
+        "Inductive wset : Set := SetU | SetD.",
+        "Inductive cstmt : Set :=",
+        "  | CReadOld (attached_only : bool)",
+        "  | CRehash",
+        "  | CPrune (from_updated from_deleted : bool)",
+        "  | CNglob (deleted_arg updated_arg : wset)",
+        "  | CClear.",
+        f"Definition drain_during_build : bool := {'true' if facts['drain_during_build'] else 'false'}.",
+        f"Definition loop_during_build : bool := {'true' if facts['loop_during_build'] else 'false'}.",
+        f"Definition commit_program : list cstmt := [{'; '.join(facts['commit_program'])}].",
         "",
     ]
     return "\n".join(out), facts
